@@ -17,7 +17,7 @@ RULE = ('linear systems n<=14 (dense/sparse A, vector/scalar b) x index sets: al
         'identity/affine/annulus geometries, multipatch, and space-time initial conditions; distinct by full descriptor; non-trivial '
         'if at least one dof is constrained')
 MIN_NONTRIVIAL = {'quick': 400, 'thorough': 8000}
-REQUIRED_COUNTERS = ['contract:rls_init', 'oracle:prescribed_values', 'oracle:free_equations', 'oracle:bc_trace', 'oracle:bc_dofs',
+REQUIRED_COUNTERS = ['oracle:inputs_modified_after_construction', 'contract:rls_init', 'oracle:prescribed_values', 'oracle:free_equations', 'oracle:bc_trace', 'oracle:bc_dofs',
                      'oracle:initial_condition', 'oracle:combine_bcs']
 ASSUMPTIONS = ['geometry evaluation (geo.boundary, grid_eval) is trusted here and covered by C07',
                'residual tolerance 1e-10 x cond(A_restricted) x scale']
@@ -133,8 +133,15 @@ def _rls(rec, case):
     rec.case(desc, nontrivial=len(idx) > 0)
     sig = {'route': 'RestrictedLinearSystem', 'sorted': bool(np.all(np.diff(idx) > 0)), 'elim_rows': use_er}
     Aop = scipy.sparse.csr_matrix(A) if sparse else A
-    ok, L = guarded(rec, desc, dict(sig, stage='construct'), assemble.RestrictedLinearSystem, Aop, b, (idx, vals), er)
+    # the caller's arrays are its own: a time-stepping loop refills its buffers after the system has been built
+    idx_in = idx.copy(); vals_in = np.array(vals, copy=True) if not scalar_vals else vals; b_in = np.array(b, copy=True) if not scalar_b else b
+    ok, L = guarded(rec, desc, dict(sig, stage='construct'), assemble.RestrictedLinearSystem, Aop, b_in, (idx_in, vals_in), er)
     if not ok: return
+    if case.get('i', 0) % 2 == 0:
+        rec.count('oracle:inputs_modified_after_construction')
+        if not scalar_vals and len(idx): vals_in[:] = 1e3 + np.arange(len(idx))
+        if not scalar_b: b_in[:] = -7.0
+        if len(idx): idx_in[:] = idx_in[::-1].copy()
     nfree = n - len(idx)
     LA = _dense(L.A); Lb = np.asarray(L.b, dtype=float)
     if LA.shape != (nfree, nfree) or Lb.shape != (nfree,):
